@@ -249,6 +249,10 @@ def run_case(acc, A, handler, kind, spec, accept, pkey, carrier, neutral_cache):
             kw = {}
             if field == 'code':
                 kw['code'] = 418
+            elif field is not None and field.startswith('ct:'):
+                # the documented content_type= option, together with a hostile detail
+                kw['content_type'] = field[3:]
+                kw['detail'] = pl
             elif field is not None:
                 kw[field] = pl
             A.spec = (cname, kw, how)
@@ -313,8 +317,8 @@ def run_case(acc, A, handler, kind, spec, accept, pkey, carrier, neutral_cache):
     strict = not (kind == 'class' and spec[0] in ('InternalServerError', 'NotImplemented', 'BadGateway',
                                                  'ServiceUnavailable', 'GatewayTimeout', 'HTTPVersionNotSupported')
                   and spec[1] != 'error_type')
-    check_body(acc, bad, res, fmt, fields, neutral_body, pkey, payload, carrier if kind != 'class' else spec[1],
-               strict_fields=True)
+    check_body(acc, bad, res, fmt, fields, neutral_body, pkey, payload,
+               carrier if kind != 'class' else ('detail' if str(spec[1]).startswith('ct:') else spec[1]), strict_fields=True)
 
 
 def items(tier):
@@ -327,6 +331,10 @@ def items(tier):
             for field in ('detail', 'message', 'error_type'):
                 for pkey in sorted(PAYLOADS):
                     out.append(('default', 'class', (cname, field, how), pkey))
+            if cname in ('Forbidden', 'NotFound', 'InternalServerError', 'BadRequest'):
+                for ct in ('application/json', 'text/html; charset=utf-8', 'application/xml; charset=utf-8', 'text/plain'):
+                    for pkey in ('tag', 'quotes', 'plain'):
+                        out.append(('default', 'class', (cname, 'ct:' + ct, how), pkey))
     for handler in ('default', 'debug'):
         for carrier in ('excmsg', 'local', 'query', 'header', 'cookie'):
             for pkey in sorted(PAYLOADS):
